@@ -851,7 +851,12 @@ impl ManifestNamespace {
         for i in 1..=namespace_path.len() {
             let partial_path = &namespace_path[..i];
             let object_id = partial_path.join(DELIMITER);
-            if !self.manifest_contains_object(&object_id).await? {
+            // A table with this id is not a namespace: look the parent up by type
+            if self
+                .query_manifest_for_namespace(&object_id)
+                .await?
+                .is_none()
+            {
                 return Err(Error::Namespace {
                     source: format!("Parent namespace '{}' does not exist", object_id).into(),
                     location: location!(),
@@ -1092,7 +1097,8 @@ impl LanceNamespace for ManifestNamespace {
 
         let (namespace, table_name) = Self::split_object_id(table_id);
         let object_id = Self::build_object_id(&namespace, &table_name);
-        let exists = self.manifest_contains_object(&object_id).await?;
+        // A namespace with this id is not a table: look the object up by type
+        let exists = self.query_manifest_for_table(&object_id).await?.is_some();
         if exists {
             Ok(())
         } else {
@@ -1414,8 +1420,12 @@ impl LanceNamespace for ManifestNamespace {
 
         let object_id = namespace_id.join(DELIMITER);
 
-        // Check if namespace exists
-        if !self.manifest_contains_object(&object_id).await? {
+        // Check if namespace exists (a table with this id must not be dropped as a namespace)
+        if self
+            .query_manifest_for_namespace(&object_id)
+            .await?
+            .is_none()
+        {
             return Err(Error::Namespace {
                 source: format!("Namespace '{}' not found", object_id).into(),
                 location: location!(),
@@ -1474,7 +1484,12 @@ impl LanceNamespace for ManifestNamespace {
         }
 
         let object_id = namespace_id.join(DELIMITER);
-        if self.manifest_contains_object(&object_id).await? {
+        // A table with this id is not a namespace: look the object up by type
+        if self
+            .query_manifest_for_namespace(&object_id)
+            .await?
+            .is_some()
+        {
             Ok(())
         } else {
             Err(Error::Namespace {
